@@ -368,17 +368,50 @@ def r8_4(ctx):
     return all(a is None or a.get("kind") in ("CXXDefaultArgExpr", "CXXNullPtrLiteralExpr")
                for a in args)
 
-  def transfer(ev, st):
-    if ev.kind == "write" and ev.what == "Program::solver_" and not ev.cond:
-      return st | {"reset"} if drops(ev) else st - {"reset"}
-    return st
-  fl = cxx.CxxFlow(ix, inv, transfer)
-  nothing_to_drop = _null_solver_returns(ix, inv)
-  ok = all(s is not None and ("reset" in s or (k == "return" and id(n) in nothing_to_drop))
-           for k, n, s in fl.exits)
+  # path-sensitive in one respect: where a test has shown solver_ to be null
+  # (`if (!solver_) return;`, the implicit else of `if (solver_) {..}`) there is
+  # nothing to drop
+  truthy, is_null_test = _solver_tests(ix)
+  exits = []
+
+  def run(block, ok):
+    """ok = solver_ has been dropped (or is known to be null) on this path."""
+    for st_ in U.stmts(block):
+      k = st_.get("kind")
+      if k == "IfStmt":
+        init, var, cond, then, els = U.if_parts(st_)
+        if init is not None or var is not None:
+          raise AnalysisError("InvalidateSolver: if-with-initialiser not modelled")
+        c = cxx.uncast(cxx.term(ix, cond))
+        ok_then = True if is_null_test(c) else ok
+        ok_else = True if truthy(c) else ok
+        a = run(then, ok_then)
+        b = run(els, ok_else) if els is not None else ok_else
+        if a is None and b is None:
+          return None
+        ok = all(x for x in (a, b) if x is not None)
+      elif k == "ReturnStmt":
+        exits.append(("return", ok))
+        return None
+      elif k == "CompoundStmt":
+        ok = run(st_, ok)
+        if ok is None:
+          return None
+      elif k in ("ForStmt", "WhileStmt", "DoStmt", "CXXForRangeStmt", "SwitchStmt",
+                 "CXXTryStmt", "GotoStmt", "BreakStmt", "ContinueStmt"):
+        raise AnalysisError(f"InvalidateSolver: {k} not modelled")
+      else:
+        for ev in cxx.events(ix, st_, {}):
+          if ev.kind == "write" and ev.what == "Program::solver_":
+            ok = bool(drops(ev)) and not ev.cond
+    return ok
+  end = run(inv.body, False)
+  if end is not None:
+    exits.append(("end", end))
+  ok = bool(exits) and all(o for _, o in exits)
   ctx.check(ok, "InvalidateSolver:resets-on-every-path", inv.file, inv.line,
-            "Program::InvalidateSolver must drop solver_ on every path",
-            {"exits": [(k, sorted(s or []), id(n) in nothing_to_drop) for k, n, s in fl.exits]})
+            "Program::InvalidateSolver must drop solver_ on every path on which "
+            "it is not known to be null", {"exits": exits})
   # readers of solver_: only GetSolver, InvalidateSolver, CalculateMetrics,
   # and the test-only accessor solver(), which nothing outside tests calls
   allowed = {QUERY, INV, "Program::CalculateMetrics()", "Program::solver()"}
@@ -484,12 +517,9 @@ def _null_mapped_to_miss(ix, fn, holder):
   return False
 
 
-def _null_solver_returns(ix, fn):
-  """ids of the `return;` statements of InvalidateSolver that are the whole
-  body of a guard clause taken only when solver_ is null (`if (!solver_)
-  return;`, or the else-branch of `if (solver_)`): there is nothing to drop
-  on that path.  Only a branch consisting of the bare return qualifies, so
-  nothing can have created a solver between the test and the exit."""
+def _solver_tests(ix):
+  """(truthy, is_null_test): predicates over condition terms that establish
+  `solver_` non-null / null."""
   from sa.cxx import term, uncast
   fld = ("field", "Program::solver_", ("this",))
 
@@ -512,19 +542,7 @@ def _null_solver_returns(ix, fn):
       if t[0] == "==" or (t[0] == "opcall" and t[1] == "operator=="):
         return any(truthy(o) for o in ops if isinstance(o, tuple))
     return False
-  out = set()
-  for n in cxx.walk(fn.body):
-    if n.get("kind") != "IfStmt":
-      continue
-    init, var, cond, then, els = U.if_parts(n)
-    if init is not None or var is not None:
-      continue
-    c = uncast(term(ix, cond))
-    branch = then if is_null_test(c) else els if truthy(c) else None
-    st = U.stmts(branch) if branch is not None else []
-    if len(st) == 1 and st[0].get("kind") == "ReturnStmt" and U.return_value(st[0]) is None:
-      out.add(id(st[0]))
-  return out
+  return truthy, is_null_test
 
 
 def _trie_walk(ix, fn, lookup=False):
@@ -893,7 +911,7 @@ VARIANTS = [
     {"name": "solver-created-elsewhere", "rule": "R8.4", "file": _tg("typegraph.cc"), "expect": "fire",
      "old": "bool Binding::IsVisible(const CFGNode* viewpoint) const {\n  Solver* s = program_->GetSolver();",
      "new": "bool Binding::IsVisible(const CFGNode* viewpoint) const {\n  Solver* s = program_->solver();"},
-    {"name": "invalidate-keeps-solver-when-no-metrics", "rule": "R8.4", "file": _tg("typegraph.cc"), "expect": "fire",
+    {"name": "twin-invalidate-reset-inside-the-non-null-branch", "rule": "R8.4", "file": _tg("typegraph.cc"), "expect": "silent",
      "old": "    solver_metrics_.push_back(solver_->CalculateMetrics());\n  }\n  solver_.reset();",
      "new": "    solver_metrics_.push_back(solver_->CalculateMetrics());\n    solver_.reset();\n  }"},
     {"name": "pathcache-lookup-returns-prefix", "rule": "R8.5", "file": _tg("solver.cc"), "expect": "fire",
